@@ -466,21 +466,29 @@ public:
         unsigned long pw,seq,idx;
         unsigned long bk = BACKOFF_MIN;
         do {
+            FIX8_VERIF_POINT(1, 0);
             pw    = atomic_long_read(&preadP);
             idx   = pw & mask;
+            FIX8_VERIF_POINT(2, pw);
             seq   = atomic_long_read(&seqP[idx]);
+            FIX8_VERIF_POINT(3, pw);
             if (pw == seq) {
                 if (abstraction_cas((volatile atom_t*)&preadP, (atom_t)(pw+1), (atom_t)pw)==(atom_t)pw)
                     break;
+                FIX8_VERIF_POINT(4, pw);
 
                 // exponential delay with max value
                 for(volatile unsigned i=0;i<bk;++i) ;
                 bk <<= 1;
                 bk &= BACKOFF_MAX;
             }
+            else { FIX8_VERIF_POINT(8, pw); }
         } while(1);
+        FIX8_VERIF_POINT(5, pw);
         ((uSWSR_Ptr_Buffer*)(buf[idx]))->push(data); // cannot fail
+        FIX8_VERIF_POINT(6, pw);
         atomic_long_set(&seqP[idx],(pw+mask+1));
+        FIX8_VERIF_POINT(7, pw);
         return true;
     }
 
@@ -494,22 +502,32 @@ public:
         unsigned long bk = BACKOFF_MIN;
 
         do {
+            FIX8_VERIF_POINT(11, 0);
             pr     = atomic_long_read(&preadC);
             idx    = pr & mask;
+            FIX8_VERIF_POINT(12, pr);
             seq    = atomic_long_read(&seqC[idx]);
+            FIX8_VERIF_POINT(13, pr);
             if (pr == (unsigned long)seq) {
+                FIX8_VERIF_POINT(18, pr);
                 if (atomic_long_read(&seqP[idx]) <= (unsigned long)seq) return false; // queue
+                FIX8_VERIF_POINT(14, pr);
                 if (abstraction_cas((volatile atom_t*)&preadC, (atom_t)(pr+1), (atom_t)pr)==(atom_t)pr)
                     break;
+                FIX8_VERIF_POINT(15, pr);
 
                 // exponential delay with max value
                 for(volatile unsigned i=0;i<bk;++i) ;
                 bk <<= 1;
                 bk &= BACKOFF_MAX;
             }
+            else { FIX8_VERIF_POINT(20, pr); }
         } while(1);
+        FIX8_VERIF_POINT(16, pr);
         ((uSWSR_Ptr_Buffer*)(buf[idx]))->pop(data);
+        FIX8_VERIF_POINT(17, pr);
         atomic_long_set(&seqC[idx],(pr+mask+1));
+        FIX8_VERIF_POINT(19, pr);
         return true;
     }
 
